@@ -159,6 +159,12 @@ where
 	fn decode<I: Input>(input: &mut I) -> Result<Self, Error> {
 		parity_scale_codec::Compact::<T>::decode(input).map(CompactOf)
 	}
+	fn skip<I: Input>(input: &mut I) -> Result<(), Error> {
+		parity_scale_codec::Compact::<T>::skip(input)
+	}
+	fn encoded_fixed_size() -> Option<usize> {
+		parity_scale_codec::Compact::<T>::encoded_fixed_size()
+	}
 }
 impl<T> parity_scale_codec::DecodeWithMemTracking for CompactOf<T> where
 	parity_scale_codec::Compact<T>: parity_scale_codec::DecodeWithMemTracking
@@ -200,9 +206,102 @@ impl CompactAsSubject for CA {
 	}
 }
 
+/// A hand-written `CompactAs` type whose `decode_from` is fallible (a percentage): `Compact<Pct>` and
+/// `#[codec(compact)]` fields of it must reject canonical numbers above 100 on every path
+/// (decode, skip, in-place decode, bulk paths).
+#[derive(Clone, Copy, Debug, Default, PartialEq, Eq, PartialOrd, Ord)]
+pub struct Pct(pub u8);
+
+impl Encode for Pct {
+	fn encode_to<W: Output + ?Sized>(&self, dest: &mut W) {
+		self.0.encode_to(dest)
+	}
+}
+impl Decode for Pct {
+	fn decode<I: Input>(input: &mut I) -> Result<Self, Error> {
+		let x = u8::decode(input)?;
+		if x <= 100 {
+			Ok(Pct(x))
+		} else {
+			Err("Pct: above 100".into())
+		}
+	}
+}
+impl parity_scale_codec::DecodeWithMemTracking for Pct {}
+impl parity_scale_codec::CompactAs for Pct {
+	type As = u8;
+	fn encode_as(&self) -> &u8 {
+		&self.0
+	}
+	fn decode_from(x: u8) -> Result<Self, Error> {
+		if x <= 100 {
+			Ok(Pct(x))
+		} else {
+			Err("Pct: above 100".into())
+		}
+	}
+}
+impl From<parity_scale_codec::Compact<Pct>> for Pct {
+	fn from(x: parity_scale_codec::Compact<Pct>) -> Pct {
+		x.0
+	}
+}
+impl Subject for Pct {
+	fn shape() -> Shape {
+		// the plain encoding is a byte with the same bound; there is no "bounded byte" shape, so the
+		// plain type is not registered, only its compact form
+		Shape::UInt(8)
+	}
+	fn from_value(v: &Value) -> Self {
+		Pct(u8::from_value(v))
+	}
+	fn to_value(&self) -> Value {
+		self.0.to_value()
+	}
+}
+impl CompactAsSubject for Pct {
+	fn compact_shape() -> Shape {
+		Shape::CompactMax(8, 100)
+	}
+}
+
+/// A derived struct with a `#[codec(compact)]` field of the fallible `CompactAs` type.
+#[derive(Clone, Debug, PartialEq, Eq, Encode, Decode, parity_scale_codec::DecodeWithMemTracking)]
+pub struct WithPct {
+	pub a: u8,
+	#[codec(compact)]
+	pub p: Pct,
+	pub b: bool,
+}
+impl Subject for WithPct {
+	fn shape() -> Shape {
+		Shape::Struct(vec![
+			refmodel::Field { shape: Shape::UInt(8), skip: false },
+			refmodel::Field { shape: Shape::CompactMax(8, 100), skip: false },
+			refmodel::Field { shape: Shape::Bool, skip: false },
+		])
+	}
+	fn from_value(v: &Value) -> Self {
+		let f = list(v);
+		WithPct { a: u8::from_value(&f[0]), p: Pct::from_value(&f[1]), b: bool::from_value(&f[2]) }
+	}
+	fn to_value(&self) -> Value {
+		Value::List(vec![self.a.to_value(), self.p.to_value(), self.b.to_value()])
+	}
+}
+
 pub fn registry() -> Vec<VT> {
 	vec![
 		crate::vt!(Pt, "Pt", "derived", true),
+		crate::vt!(CompactOf<Pct>, "Compact<Pct>", "derived", true),
+		crate::vt!(Vec<CompactOf<Pct>>, "Vec<Compact<Pct>>", "derived", true),
+		crate::vt!([CompactOf<Pct>; 2], "[Compact<Pct>; 2]", "derived", false),
+		crate::vt!(Option<CompactOf<Pct>>, "Option<Compact<Pct>>", "derived", false),
+		crate::vt!((CompactOf<Pct>, u8), "(Compact<Pct>, u8)", "derived", false),
+		crate::vt!(Box<CompactOf<Pct>>, "Box<Compact<Pct>>", "derived", false),
+		crate::vt!(WithPct, "WithPct", "derived", true),
+		crate::vt!(Vec<WithPct>, "Vec<WithPct>", "derived", false),
+		crate::vt!([WithPct; 2], "[WithPct; 2]", "derived", false),
 		crate::vt!(CA, "CA", "derived", true),
 		crate::vt!(CompactOf<CA>, "Compact<CA>", "derived", true),
 		crate::vt!(ZE, "ZE", "derived", true),
